@@ -19,6 +19,7 @@ def run(chk, facts, tier):
     chk.rule('packing-shape', 'client_characteristic_configuration: get = (data_[i / D] >> (i % D) * B) & mask, set = (data_[i / D] & ~(mask << shift)) | ((v & 0x03) << shift), D * B == 8, mask == (1 << B) - 1', floor=2)
     chk.rule('one-position-per-cccd', 'the CCCD access passes the same cccd_position (index_of<ClientCharacteristicIndex, CCCDIndices> or ClientCharacteristicIndex for an empty list) to every flags() call', floor=1)
     chk.rule('callback-iff-changed', 'notification_subscription_changed is called only under old_config != flags(cccd_position) after the store', floor=1)
+    chk.rule('partial-write-keeps-rest', 'the CCCD write merges the received octets into a scratch copy preloaded with the stored flags (write_16bit(scratch, flags(cccd_position)) before the copy) and stores read_16bit(scratch): octets the client did not send keep their value', floor=1)
     chk.rule('cccd-indices-permutation', 'cccd_indices is a permutation of 0..N-1 (witness declarations with 1 / 5 / 9 CCCDs, with and without outgoing priorities; evaluated by the compiler)', floor=4)
     consts = {}
     for c in facts.cls('bluetoe::details::client_characteristic_configuration'):
@@ -72,6 +73,7 @@ def run(chk, facts, tier):
             ok = ok and pos is not None and pos.k == 'ConditionalOperator' and mentions(pos, 'cccd_position_index') and mentions(pos, 'ClientCharacteristicIndex') and idx is not None and 'index_of' in (idx.d.get('qual') or idx.text())
         chk.instance('one-position-per-cccd', fn, '%d flags() calls use cccd_position' % len(fl), ok, '' if ok else 'reads and writes of one CCCD address different positions', key='cccd position')
         cb = fn.body.calls('notification_subscription_changed')
+        setter = [c for c in fl if len(c.args()) == 2]
         ok = len(cb) == 1
         if ok:
             ats = guard_atoms(fn, cb[0])
@@ -81,6 +83,21 @@ def run(chk, facts, tier):
             old = local_init(fn, 'old_config')
             ok = ok and old is not None and old.is_call('flags') and precedes(fn, old, setter[0])
         chk.instance('callback-iff-changed', fn, 'notification_subscription_changed only if the stored value changed', ok, '' if ok else 'callback not tied to a change of the stored value', key='callback')
+        # the stored value is rebuilt from a scratch copy the written bytes are merged into: the copy has to start as the stored flags
+        if len(setter) == 1:
+            v = strip_casts(setter[0].args()[1])
+            src_ = elem_addr(v.args()[0]) if v.is_call('read_16bit') and v.args() else None
+            okm, why = src_ is not None and cval(src_[1]) == 0 and strip_casts(src_[0]).d.get('local'), 'the stored flags are not read from a local scratch value'
+            if okm:
+                buf = strip_casts(src_[0]).n
+                pre = [c for c in fn.body.calls('write_16bit') if len(c.args()) == 2 and elem_addr(c.args()[0]) is not None and is_name(elem_addr(c.args()[0])[0], buf) and cval(elem_addr(c.args()[0])[1]) == 0]
+                mer = [c for c in fn.body.calls('copy') if c.args() and elem_addr(c.args()[-1]) is not None and is_name(elem_addr(c.args()[-1])[0], buf)]
+                def stored(n):
+                    n = deep(n)
+                    return n is not None and n.is_call('flags') and len(n.args()) == 1 and is_name(n.args()[0], 'cccd_position')
+                okm = len(pre) == 1 and len(mer) == 1 and stored(pre[0].args()[1]) and precedes(fn, pre[0], mer[0]) and precedes(fn, mer[0], setter[0])
+                why = 'the scratch value the written bytes are merged into does not start as the stored flags: a write shorter than the value (1 or 0 octets) changes bits the client did not send'
+            chk.instance('partial-write-keeps-rest', fn, 'scratch value = stored flags, then written bytes, then stored', okm, '' if okm else why, node=setter[0], key='merge')
     # permutation witness
     src = PRELUDE + '#include "inst_att_decls.hpp"\n'
     obl = []
